@@ -190,10 +190,12 @@ fn gen_fragment(rng: &mut Rng) -> String {
             rng.pick(&["errorstopmode", "scrollmode", "nonstopmode", "batchmode"])
         ),
         94 => format!(
-            "\\{}{}={} ",
+            "\\{}{}={} {}",
             rng.pick(&["newInt", "newIntArray"]),
             rng.pick(USER_MACROS),
-            num(rng)
+            num(rng),
+            // allocated variables used directly and through aliases
+            rng.pick(&["", "\\a 1=5 ", "\\let\\b=\\a \\b 1=5 ", "\\let\\b=\\a \\the\\b ", "{\\a=3 }\\the\\a "])
         ),
         95 => format!("\\tracingmacros={} ", num(rng)),
         96 => format!("\\dumpFormat={} \\dumpValidate={} ", num(rng), num(rng)),
